@@ -51,7 +51,7 @@ def grid_rep(draw, size=200, on_grid=None, kinds=None, counts=None):
 
 
 @st.composite
-def polygon(draw, size=1000, origin=(0, 0), props=gds_props, nmax=12, allow_rep=True):
+def polygon(draw, size=1000, origin=(0, 0), props=gds_props, nmax=12, allow_rep=True, rep_st=None):
     import geomkit as gk
     fam = draw(st.sampled_from(["simple", "simple", "rect", "tri"]))
     if fam == "rect":
@@ -75,19 +75,19 @@ def polygon(draw, size=1000, origin=(0, 0), props=gds_props, nmax=12, allow_rep=
         pts = draw(gk.simple_polygon(size=size, center=(draw(st.integers(-size, size)), draw(st.integers(-size, size)))))
     jit = draw(st.sampled_from([0.0, 0.0, 0.2, -0.3, 0.1]))
     pts = [[p[0] + origin[0] + jit, p[1] + origin[1] - jit] for p in pts]
-    rep = draw(st.one_of(st.none(), st.none(), grid_rep())) if allow_rep else None
+    rep = draw(st.one_of(st.none(), st.none(), rep_st if rep_st is not None else grid_rep())) if allow_rep else None
     return {"tag": draw(tag_st), "pts": pts, "rep": rep, "props": draw(props())}
 
 
 @st.composite
-def label(draw, size=1000, origin=(0, 0), props=gds_props, full=True):
+def label(draw, size=1000, origin=(0, 0), props=gds_props, full=True, rep_st=None):
     text = draw(st.text(alphabet="abcdefghijklmnopqrstuvwxyzABC XYZ0123456789.,-_", min_size=1, max_size=15))
     d = {"text": text, "tag": draw(tag_st), "origin": [draw(coord(size)) + origin[0], draw(coord(size)) + origin[1]],
          "anchor": draw(st.sampled_from(ANCHORS)) if full else 0,
          "rot": draw(st.sampled_from([0.0, 0.0, math.pi / 2, math.pi, -math.pi / 2, 0.3, 1.0, -2.5, 7.0])) if full else 0.0,
          "mag": draw(st.sampled_from([1.0, 1.0, 2.0, 0.5, 1.0 / 3, 1e-3, 17.25])) if full else 1.0,
          "xr": draw(st.booleans()) if full else False,
-         "rep": draw(st.one_of(st.none(), st.none(), grid_rep())), "props": draw(props())}
+         "rep": draw(st.one_of(st.none(), st.none(), rep_st if rep_st is not None else grid_rep())), "props": draw(props())}
     return d
 
 
@@ -95,7 +95,7 @@ END_TYPES = ["flush", "round", "halfwidth", "extended"]
 
 
 @st.composite
-def simple_flexpath(draw, size=1000, origin=(0, 0), props=gds_props, nonneg_width=False):
+def simple_flexpath(draw, size=1000, origin=(0, 0), props=gds_props, nonneg_width=False, rep_st=None):
     """polyline spine, constant widths, zero offsets: the centre line is the spine itself"""
     n = draw(st.integers(2, 6))
     pts = []
@@ -115,11 +115,11 @@ def simple_flexpath(draw, size=1000, origin=(0, 0), props=gds_props, nonneg_widt
                     "ext": [float(draw(st.integers(-20, 40))), float(draw(st.integers(-20, 40)))] if end == "extended" else [0.0, 0.0],
                     "join": draw(st.sampled_from([0, 1, 2, 3]))})
     return {"kind": "fp", "simple": True, "scale_width": True if nonneg_width else draw(st.booleans()), "tol": 0.01, "spine": pts,
-            "els": els, "rep": draw(st.one_of(st.none(), st.none(), grid_rep())), "props": draw(props())}
+            "els": els, "rep": draw(st.one_of(st.none(), st.none(), rep_st if rep_st is not None else grid_rep())), "props": draw(props())}
 
 
 @st.composite
-def outline_flexpath(draw, size=1000, origin=(0, 0), props=gds_props):
+def outline_flexpath(draw, size=1000, origin=(0, 0), props=gds_props, rep_st=None):
     """non-simple flexpath (saved as polygons): spine polyline with comfortable segment lengths, 1-2 elements with offsets"""
     n = draw(st.integers(2, 4))
     x, y = draw(st.integers(-size, size)) + origin[0], draw(st.integers(-size, size)) + origin[1]
@@ -139,17 +139,18 @@ def outline_flexpath(draw, size=1000, origin=(0, 0), props=gds_props):
         if e["end"] != "extended":
             e["ext"] = [0.0, 0.0]
     return {"kind": "fp", "simple": False, "scale_width": draw(st.booleans()), "tol": 0.01, "spine": pts, "els": els,
-            "rep": draw(st.one_of(st.none(), st.none(), grid_rep())), "props": draw(props())}
+            "rep": draw(st.one_of(st.none(), st.none(), rep_st if rep_st is not None else grid_rep())), "props": draw(props())}
 
 
 @st.composite
-def robustpath(draw, size=1000, origin=(0, 0), props=gds_props, simple=None, nonneg_width=False):
+def robustpath(draw, size=1000, origin=(0, 0), props=gds_props, simple=None, nonneg_width=False, rep_st=None):
     x, y = draw(st.integers(-size, size)) + origin[0], draw(st.integers(-size, size)) + origin[1]
     nel = draw(st.integers(1, 2))
     els = []
     for i in range(nel):
         end = draw(st.sampled_from(END_TYPES))
-        els.append({"tag": draw(tag_st), "w": float(draw(st.sampled_from([2, 10, 20]))), "off": float((i * 2 - (nel - 1)) * 15),
+        els.append({"tag": draw(tag_st), "w": float(draw(st.sampled_from([2, 10, 20]))),
+                    "off": float((i * 2 - (nel - 1)) * 15) if nel > 1 else float(draw(st.sampled_from([0, 0, 12, -9]))),
                     "end": end, "ext": [4.0, 6.0] if end == "extended" else [0.0, 0.0]})
     ops = []
     for _ in range(draw(st.integers(1, 3))):
@@ -163,7 +164,7 @@ def robustpath(draw, size=1000, origin=(0, 0), props=gds_props, simple=None, non
     if simple is None:
         simple = draw(st.booleans())
     return {"kind": "rp", "simple": simple, "scale_width": True if nonneg_width else draw(st.booleans()), "tol": 0.01, "start": [float(x), float(y)],
-            "els": els, "ops": ops, "rep": draw(st.one_of(st.none(), st.none(), grid_rep())), "props": draw(props())}
+            "els": els, "ops": ops, "rep": draw(st.one_of(st.none(), st.none(), rep_st if rep_st is not None else grid_rep())), "props": draw(props())}
 
 
 def rot_strategy():
@@ -171,7 +172,7 @@ def rot_strategy():
 
 
 @st.composite
-def reference(draw, ntargets, size=1000, props=gds_props, allow_name=True, allow_outside=False, rep_kinds=None):
+def reference(draw, ntargets, size=1000, props=gds_props, allow_name=True, allow_outside=False, rep_kinds=None, rep_st=None, small_counts=False):
     """target: index of a later cell, or a dangling name"""
     kind = draw(st.sampled_from(["cell"] * 5 + (["name"] if allow_name else []) + (["dangling"] if allow_name else [])))
     if ntargets == 0:
@@ -185,7 +186,8 @@ def reference(draw, ntargets, size=1000, props=gds_props, allow_name=True, allow
     rep = None
     mode = draw(st.sampled_from(["none", "none", "aligned", "aligned_swapped", "free"]))
     if mode in ("aligned", "aligned_swapped"):
-        cols, rows = draw(st.sampled_from([1, 2, 3, 7])), draw(st.sampled_from([1, 2, 3, 7]))
+        cs_ = [1, 2, 3] if small_counts else [1, 2, 3, 7]
+        cols, rows = draw(st.sampled_from(cs_)), draw(st.sampled_from(cs_))
         dx, dy = draw(st.integers(-300, 300)), draw(st.integers(-300, 300))
         ca, sa = math.cos(rot), math.sin(rot)
         ax = (dx * ca, dx * sa)
@@ -201,7 +203,7 @@ def reference(draw, ntargets, size=1000, props=gds_props, allow_name=True, allow
         else:
             rep = {"type": "regular", "cols": cols, "rows": rows, "v1": list(ay), "v2": list(ax)}
     elif mode == "free":
-        rep = draw(grid_rep(kinds=rep_kinds))
+        rep = draw(rep_st if rep_st is not None else grid_rep(kinds=rep_kinds))
     d = {"kind": kind, "origin": origin, "rot": rot, "mag": mag, "xr": xr, "rep": rep, "props": draw(props())}
     if kind == "cell":
         d["target"] = draw(st.integers(0, ntargets - 1))
@@ -215,7 +217,8 @@ def reference(draw, ntargets, size=1000, props=gds_props, allow_name=True, allow
 @st.composite
 def library(draw, ncells=(1, 5), size=1000, origin_mag=None, props=gds_props, path_kinds=("simple_fp", "outline_fp", "rp"),
             label_full=True, unit_choices=((1e-6, 1e-9), (1e-6, 1e-9), (1e-6, 5e-9), (1e-9, 1e-12), (1.0, 1e-3), (1e-3, 1e-6)),
-            allow_name_refs=True, nonneg_width=False, elements=(0, 4), rep_kinds=None):
+            allow_name_refs=True, nonneg_width=False, elements=(0, 4), rep_kinds=None, rep_st=None, small_counts=False, npaths=(0, 2), nlabels=(0, 2),
+            nrefs=(0, 3)):
     unit, prec = draw(st.sampled_from(list(unit_choices)))
     n = draw(st.integers(*ncells))
     used = set()
@@ -232,24 +235,25 @@ def library(draw, ncells=(1, 5), size=1000, origin_mag=None, props=gds_props, pa
         csize = min(size, 2000)
         cell = {"name": nm, "polys": [], "paths": [], "labels": [], "refs": []}
         for _ in range(draw(st.integers(*elements))):
-            cell["polys"].append(draw(polygon(size=csize, origin=(ox, oy), props=props)))
-        for _ in range(draw(st.integers(0, 2))):
+            cell["polys"].append(draw(polygon(size=csize, origin=(ox, oy), props=props, rep_st=rep_st)))
+        for _ in range(draw(st.integers(*npaths))):
             k = draw(st.sampled_from(list(path_kinds)))
             if k == "simple_fp":
-                cell["paths"].append(draw(simple_flexpath(size=csize, origin=(ox, oy), props=props, nonneg_width=nonneg_width)))
+                cell["paths"].append(draw(simple_flexpath(size=csize, origin=(ox, oy), props=props, nonneg_width=nonneg_width, rep_st=rep_st)))
             elif k == "outline_fp":
-                cell["paths"].append(draw(outline_flexpath(size=csize, origin=(ox, oy), props=props)))
+                cell["paths"].append(draw(outline_flexpath(size=csize, origin=(ox, oy), props=props, rep_st=rep_st)))
             elif k == "rp":
-                cell["paths"].append(draw(robustpath(size=csize, origin=(ox, oy), props=props, nonneg_width=nonneg_width)))
+                cell["paths"].append(draw(robustpath(size=csize, origin=(ox, oy), props=props, nonneg_width=nonneg_width, rep_st=rep_st)))
             elif k == "simple_rp":
-                cell["paths"].append(draw(robustpath(size=csize, origin=(ox, oy), props=props, simple=True, nonneg_width=nonneg_width)))
-        for _ in range(draw(st.integers(0, 2))):
-            cell["labels"].append(draw(label(size=csize, origin=(ox, oy), props=props, full=label_full)))
+                cell["paths"].append(draw(robustpath(size=csize, origin=(ox, oy), props=props, simple=True, nonneg_width=nonneg_width, rep_st=rep_st)))
+        for _ in range(draw(st.integers(*nlabels))):
+            cell["labels"].append(draw(label(size=csize, origin=(ox, oy), props=props, full=label_full, rep_st=rep_st)))
         cells.append(cell)
     # references: cell i may reference only cells j > i (acyclic by construction)
     for i, cell in enumerate(cells):
-        for _ in range(draw(st.integers(0, 3))):
-            r = draw(reference(n - i - 1, size=min(size, 2000), props=props, allow_name=allow_name_refs, rep_kinds=rep_kinds))
+        for _ in range(draw(st.integers(*nrefs))):
+            r = draw(reference(n - i - 1, size=min(size, 2000), props=props, allow_name=allow_name_refs, rep_kinds=rep_kinds, rep_st=rep_st,
+                               small_counts=small_counts))
             if r is None:
                 continue
             if r["kind"] in ("cell", "name"):
